@@ -548,7 +548,8 @@ class DataFrameSchema(Generic[TDataObject], BaseSchema):
             )
 
         for col in cols_to_remove:
-            schema_copy.columns.pop(col)
+            # a name may be listed more than once (as in DataFrame.drop)
+            schema_copy.columns.pop(col, None)
 
         return cast(Self, schema_copy)
 
@@ -776,6 +777,16 @@ class DataFrameSchema(Generic[TDataObject], BaseSchema):
         if already_in_columns:
             raise errors.SchemaInitError(
                 f"Keys {already_in_columns} already found in schema columns!"
+            )
+
+        # ensure no two columns are renamed to the same key
+        new_names = list(rename_dict.values())
+        duplicated = [
+            x for i, x in enumerate(new_names) if x in new_names[:i]
+        ]
+        if duplicated:
+            raise errors.SchemaInitError(
+                f"Keys {duplicated} are the new name of more than one column!"
             )
 
         # We iterate over the existing columns dict and replace those keys
